@@ -220,6 +220,7 @@ func run(prop, tier, repo, verif, rulesF string, noEv, dumpKeys, verbose bool) (
 		replayDir := filepath.Join(verif, "evidence", "replay")
 		var samples []interface{}
 		var bad []Ob
+		var knownHits []string
 		for _, o := range all {
 			if o.Status == VIOLATED || o.Status == UNDECIDED {
 				bad = append(bad, o)
@@ -228,6 +229,7 @@ func run(prop, tier, repo, verif, rulesF string, noEv, dumpKeys, verbose bool) (
 		for i, o := range bad {
 			if kf := ff.known(id, o.Key); kf != nil && o.Status == VIOLATED {
 				fmt.Printf("KNOWN-FINDING: property=%s %s [%s at %s]\n", id, kf.What, o.Key, o.Pos)
+				knownHits = append(knownHits, o.Key+" at "+o.Pos)
 				continue
 			}
 			nviol++
@@ -287,6 +289,7 @@ func run(prop, tier, repo, verif, rulesF string, noEv, dumpKeys, verbose bool) (
 				"rules":              p.Rules,
 				"samples":            samples,
 				"information":        infos,
+				"known_findings":     knownHits,
 				"packages_analysed":  c.NPackages,
 				"functions_analysed": c.NFuncs,
 				"call_sites_scanned": c.NCalls,
